@@ -14,7 +14,7 @@ let lbl_name = function
   | Submit _ -> "Submit" | Build _ -> "Build" | DropCanceled _ -> "DropCanceled" | NoConn _ -> "NoConn"
   | InitFail _ -> "InitFail" | Store _ -> "Store" | FailSent _ -> "FailSent" | RecvLoad _ -> "RecvLoad"
   | RecvFinish _ -> "RecvFinish" | StreamFail _ -> "StreamFail" | Abort _ -> "Abort" | Return _ -> "Return"
-  | Close -> "Close"
+  | Close -> "Close" | Restart -> "Restart"
 
 exception Reject of string * string (* oracle, reason *)
 
@@ -55,10 +55,12 @@ let blackbox (s : sc) =
     | "HARNESS" :: r -> oracle "harness" (String.concat " " r)
     | "END" :: rest ->
         let n = List.length rest in
-        if n >= 3 then begin
-          let pr = List.nth rest (n - 3) and ps = List.nth rest (n - 2) and ps2 = List.nth rest (n - 1) in
+        if n >= 4 then begin
+          let pr = List.nth rest (n - 4) and ps = List.nth rest (n - 3) and ps2 = List.nth rest (n - 2) in
+          let inj = ios (List.nth rest (n - 1)) in (* send-loop panics injected through the repo's failpoint *)
           if pr <> "0" then oracle "no_panic" ("batchRecvLoop recovered " ^ pr ^ " panic(s)");
-          if ps <> "0" || ps2 <> "0" then oracle "no_panic" ("batchSendLoop recovered " ^ ps ^ "/" ^ ps2 ^ " panic(s)")
+          if ios ps > inj || ios ps2 > inj || ios ps < 0 then
+            oracle "no_panic" (Printf.sprintf "batchSendLoop recovered %s/%s panic(s), %d injected" ps ps2 inj)
         end
     | _ -> ()) s.evs;
   Hashtbl.iter (fun c _ ->
@@ -119,6 +121,7 @@ let whitebox (s : sc) =
   let close_pending = ref false and closed_seen = ref false in
   let do_close () = if !close_pending then (close_pending := false; apply "exactly_once" Close) in
   let batches = Hashtbl.create 16 in
+  let lostcas = Hashtbl.create 4 in
   let must_empty = Hashtbl.create 16 in
   let id_of_caller = Hashtbl.create 64 in
   List.iter (fun (i, c) -> if not (Hashtbl.mem id_of_caller c) then Hashtbl.replace id_of_caller c i) allpairs;
@@ -127,7 +130,8 @@ let whitebox (s : sc) =
   let flush_fail h = if npending h > 0 then begin
       Hashtbl.replace pending h (npending h - 1); apply "fail_pending" (StreamFail (nat h));
       (* observation outside the property: the loop lost the epoch CAS, its pending entries stay in flight *)
-      if not (closed !st) && not (no_pending_of (nat h) !st) then bump "obs:stale_epoch_recreate_keeps_pending" 1
+      if not (closed !st) && not (no_pending_of (nat h) !st) then begin
+        Hashtbl.replace lostcas h true; bump "obs:stale_epoch_recreate_keeps_pending" 1 end
     end in
   let model_ids_of_host h =
     List.sort compare (List.filter_map (fun (i, c) -> if int_of_nat (e_host (ent !st c)) = h then Some (int_of_nat i) else None) (tab !st)) in
@@ -180,6 +184,17 @@ let whitebox (s : sc) =
                              (String.concat "," (List.map string_of_int real)) (String.concat "," (List.map string_of_int (model_ids_of_host h)))))
         end
     | "CLOSE" :: _ -> close_pending := true; closed_seen := true
+    | "INJ" :: "sendpanic" :: _ -> apply "ids_fresh" Restart
+    | "HANG" :: c :: _ ->
+        (* a call did not complete. If the faithful model agrees -- the entry is still in flight without any completion
+           after its stream was re-created by a loop that lost the epoch CAS -- this is the documented stale-epoch
+           behaviour of the code as it is (finding class), not a divergence from the model *)
+        let c = ios c in
+        let e = entry c in
+        (match e_st e, e_comp e, e_ret e with
+         | Stored _, [], None when Hashtbl.mem lostcas (int_of_nat (e_host e)) ->
+             Printf.printf "FINDING\t%s\tstale-epoch-recreate-skips-fail-pending\t%d\n" s.id c
+         | _ -> ())
     | "RET" :: c :: kind :: p :: _ ->
         let c = ios c in
         let abort k =
